@@ -717,9 +717,114 @@ class ActionRaises:
         return cls._cls("a_raises")
 
 
+def put_race(kind):
+    """Action-handler workers and the engine at shutdown.  A bounded multithreaded handler (threads=2, max_size=1), an
+    engine from BoboSetupSimple on its real run() thread, two slow actions in flight.  Only scheduling is forced: the two
+    workers leave the handler queue's full() together (its return value is unchanged), and close() + join() are called
+    while they do.  Liveness afterwards: join() returns, the engine goes on consuming data."""
+    import queue
+    import threading
+    import time as _t
+    import traceback
+    from bobocep.cep.action.action import BoboAction
+    from bobocep.cep.action.handler import BoboActionHandlerMultithreading
+    from bobocep.cep.phenom.pattern.builder import BoboPatternBuilder
+    from bobocep.cep.phenom.phenom import BoboPhenomenon
+    from bobocep.setup.simple import BoboSetupSimple
+
+    gate = threading.Event()
+
+    class Slow(BoboAction):
+        def execute(self, event):
+            gate.wait(10)
+            return True, None
+    bounded = kind.endswith("+bounded")
+    handler = BoboActionHandlerMultithreading(threads=2, max_size=1 if bounded else 0)
+    pat = BoboPatternBuilder("p").followed_by(lambda e, h: e.data == "a").generate()
+    ph = BoboPhenomenon(name="ph", patterns=[pat], action=Slow("slow"))
+    engine = BoboSetupSimple(phenomena=[ph], handler=handler).generate()
+    queues = [v for v in vars(handler).values() if isinstance(v, queue.Queue)]
+    arrived, both, proceed = [], threading.Event(), threading.Event()
+    if queues:
+        q = queues[0]
+        real_full = q.full
+
+        def full():
+            r = real_full()
+            if threading.current_thread() is not threading.main_thread() and not proceed.is_set():
+                arrived.append(threading.get_ident())
+                if len(set(arrived)) >= 2:
+                    both.set()
+                proceed.wait(3)
+            return r
+        q.full = full
+    th_engine = threading.Thread(target=engine.run, name="engine", daemon=True)
+    th_engine.start()
+    engine.receiver.add_data("a")
+    engine.receiver.add_data("a")
+    t0 = _t.time()
+    while handler.size() + len(arrived) < 1 and _t.time() - t0 < 5:
+        _t.sleep(0.01)
+    _t.sleep(0.3)                    # both actions handed to the pool
+    gate.set()                       # both finish now
+    both.wait(3)
+    joined = threading.Event()
+
+    def shutdown():
+        handler.close()
+        handler.join()
+        joined.set()
+    th_join = threading.Thread(target=shutdown, name="handler-join", daemon=True)
+    th_join.start()
+    _t.sleep(0.4)                    # join() is waiting for the pool
+    proceed.set()
+    ok_join = joined.wait(8)
+    before = None
+    try:
+        engine.receiver.add_data("b")
+        _t.sleep(1.5)
+        before = engine.receiver.size()
+    except Exception as ex:          # noqa
+        before = repr(ex)
+    stacks = {}
+    if not ok_join or before not in (0,):
+        for t in threading.enumerate():
+            fr = sys._current_frames().get(t.ident)
+            if fr is not None and t is not threading.current_thread():
+                stacks[t.name] = ["%s:%d %s" % (os.path.basename(f.filename), f.lineno, f.name)
+                                  for f in traceback.extract_stack(fr)[-4:]]
+    return dict(kind=kind, workers_met=len(set(arrived)), join_returned=bool(ok_join), receiver_backlog=before,
+                queue_found=bool(queues), stacks=stacks)
+
+
+def put_race_failure(kind, r):
+    if r.get("timeout") or r.get("crashed") or not r.get("queue_found"):
+        return None
+    if r.get("join_returned") and r.get("receiver_backlog") == 0:
+        return None
+    return dict(signature="worker-blocked-on-response-queue-at-join",
+                what="multithreaded handler (%s, threads=2, max_size=%d), two actions finishing together while close() + join() "
+                     "run: join() %s, the engine thread %s.  Threads: %s"
+                     % (kind, 1 if kind.endswith("+bounded") else 0,
+                        "returned" if r.get("join_returned") else "never returned",
+                        "goes on consuming data" if r.get("receiver_backlog") == 0 else "stopped consuming data (receiver backlog %r)" % r.get("receiver_backlog"),
+                        "; ".join("[%s] %s" % (n, " <- ".join(reversed(st[-3:]))) for n, st in sorted(r.get("stacks", {}).items())
+                                  if any(x in " ".join(st) for x in ("handler.py", "forwarder.py", "engine.py")))[:900]),
+                case=dict(mode="putrace", kind=kind), detail=r.get("stacks"))
+
+
 def child_main(argv):
     global ActionNoop, ActionFeed
     mode, kind = argv[0], argv[1]
+    if mode == "--putrace":
+        try:
+            out = put_race(kind)
+        except Exception as ex:      # noqa
+            import traceback
+            out = dict(crashed=True, error=traceback.format_exc()[-1500:])
+        sys.stdout.write("\n@@C08@@" + json.dumps(out, default=repr) + "\n")
+        sys.stdout.flush()
+        os._exit(0)
     import lockspy
     lockspy.install()
     ActionNoop, ActionFeed = _child_classes()
@@ -865,7 +970,17 @@ def run(ctx, res):
     kinds_run = KINDS if ctx.quick else KINDS_THOROUGH
     recs = [_spawn(["--record", k], 400) for k in kinds_run]
     stress = _spawn(["--stress", "threads", "2.5" if ctx.quick else "12"], 240)
+    races = [(k, _spawn(["--putrace", k], 90)) for k in ("threads", "threads+bounded")]
     recs = [_collect(p) for p in recs]
+    for k, pt in races:
+        r = _collect(pt)
+        res.note_case(("putrace", k), True)
+        res.extra.setdefault("put_race", {})[k] = {x: r.get(x) for x in ("workers_met", "join_returned", "receiver_backlog", "timeout", "crashed")}
+        f = put_race_failure(k, r)
+        if f:
+            res.failures.append(f)
+        elif r.get("timeout") or r.get("crashed") or not r.get("queue_found"):
+            res.errors.append("put-race scenario (%s) did not run: %s" % (k, json.dumps(r, default=repr)[:500]))
 
     facts = {}            # key -> dict(kinds, count, site)
     acq = {}
@@ -1038,6 +1153,13 @@ def replay(obj):
     elif mode == "stress":
         print("free-running threads, wait-for watchdog (%s handler, %s s)" % (case["kind"], case.get("seconds", 8)))
         r = _collect(_spawn(["--stress", case["kind"], str(case.get("seconds", 8))], 60))
+    elif mode == "putrace":
+        r = _collect(_spawn(["--putrace", case["kind"]], 90))
+        f = put_race_failure(case["kind"], r)
+        print("engine on its run() thread, multithreaded handler (%s), two actions finish together while close()+join() run" % case["kind"])
+        print("implementation:", json.dumps({k: r.get(k) for k in ("workers_met", "join_returned", "receiver_backlog", "timeout", "crashed")}))
+        print(f["what"] if f else "join() returned and the engine goes on consuming data")
+        return 1 if f else 0
     elif mode == "record" and case.get("kind"):
         print("recorded workload (%s): every role once, then (bounded systems) the outgoing queue is filled while "
               "the outgoing thread takes nothing" % case["kind"])
